@@ -121,7 +121,10 @@ FIXED = {
  "fs:copy-onto-itself-destroys-object": "ca1e912",
  "fs:put-into-missing-bucket": "1d0f501", "fs:create-upload-not-validated": "1d0f501",
  "fs:stale-metadata-after-overwrite": "b01fec8", "fs:metadata-survives-delete": "b01fec8",
+ "fs:head-missing-key-code": "d6f1a3c",
 }
+# repairs whose text says explicitly that it describes the code before the repair
+BEFORE = {"fs:head-missing-key-code"}
 
 lines, findings = [], []
 for i, (cls, ops, what) in enumerate(W, 1):
@@ -130,11 +133,20 @@ for i, (cls, ops, what) in enumerate(W, 1):
     commit = FIXED.get(cls)
     findings.append({"id": f"F-fs-{i}", "property": "C18", "component": "fs", "class": cls,
                      "status": "fixed" if commit else "open", "commit": commit, "witness": line,
-                     "what": (f"fixed: property=C18 {commit} " if commit else "") + what})
-with open(os.path.join(ROOT, "corpus", "fs.txt"), "w") as f:
+                     "what": ((f"fixed: property=C18 {commit} " + ("\u2014 before the repair: " if cls in BEFORE else ""))
+                              if commit else "") + what})
+# lines added to the corpus by other hands (directed histories, ids not starting with `w-`) are kept
+corpus_path = os.path.join(ROOT, "corpus", "fs.txt")
+if os.path.exists(corpus_path):
+    with open(corpus_path) as f:
+        for old in f.read().splitlines():
+            cols = old.split("\t")
+            if old and not old.startswith("#") and len(cols) > 1 and not cols[1].startswith("w-"):
+                lines.append(old)
+with open(corpus_path, "w") as f:
     f.write("# witness histories of the findings of component fs (C18), open and fixed; written by corpus/fs.witness.py\n")
     f.write("\n".join(lines) + "\n")
 with open(os.path.join(ROOT, "known_findings.d", "fs.json"), "w") as f:
     json.dump({"comment": "deviations of s3s-fs from the abstract object store (C18); each witness is a whole history, replayed on the real code on every run",
                "findings": findings}, f, indent=1)
-print(len(lines), "witnesses")
+print(len(findings), "witnesses,", len(lines) - len(findings), "other corpus lines kept")
